@@ -112,10 +112,15 @@ def normal_slot(kind, i):
     if kind == 13:
         return task(('command', 'k%d' % i, '', 0), loop=[lit('p'), lit('q')], vars=[('n', lit('N') + [('v', ['item'])])],
                     when=('ne', ('var', ['n']), ('str', 'Np')), register='r%d' % i)
+    if kind == 15:
+        # outputs that END in a line feed (raw mode prints the output, then its own line feed: two of them)
+        return task(('debug', lit(S(i) + " nl\n")))
+    if kind == 16:
+        return task(('debug', lit("\n" + S(i) + "\n\n")), loop=[lit('x'), lit('y')])
     return task(('debugvar', ['b']))
 
 
-NKINDS = 15
+NKINDS = 17
 
 
 def failing_slot(fk, i, ignore):
